@@ -54,6 +54,14 @@ def seeds():
             meta["detected_by"] = ("./vcheck %s --tier quick" % pid) if (rc == 1 and viol) else None
             meta["sweep"] = {"exit": rc, "violation_lines": viol}
             json.dump(meta, open(os.path.join(d, "meta.json"), "w"), indent=1)
+        for other in sorted(glob.glob(os.path.join(d, "result.C*.txt"))):
+            oid = os.path.basename(other).split(".")[1]
+            otxt = open(other).read()
+            m2 = re.search(r"seedcheck rc=(\d+)", otxt)
+            if m2 and int(m2.group(1)) == 1 and re.search(r"^VIOLATION", otxt, re.M):
+                verdict += "; detected by `./vcheck %s`" % oid
+                meta["also_detected_by"] = "./vcheck %s --tier quick" % oid
+                json.dump(meta, open(os.path.join(d, "meta.json"), "w"), indent=1)
         n_all += 1
         rows.append("| %s/%s | %s | `./vcheck %s` | %s |" % (pid, n, title[:150].replace("|", "\\|"), pid, verdict))
     rows.append("")
